@@ -6,7 +6,7 @@
 From Coq Require Import List Arith Lia Bool Reals Lra.
 From OV Require Import Base.Panic Base.Arith Model.Vector Model.Matrix Model.Sparse Model.Iter
   Proofs.SparseBase Proofs.SparseMul Proofs.Iter Proofs.IterField Proofs.IterR Proofs.IterSparse Proofs.IterSparseR
-  Proofs.IterCGVec Proofs.IterCG Proofs.IterCGR.
+  Proofs.IterCGVec Proofs.IterCG Proofs.IterCGR Proofs.IterCGBi.
 Import ListNotations.
 
 Definition sp_symmetric {A : Arith} (s : sparse A) : Prop :=
@@ -30,6 +30,15 @@ Proof.
   rewrite (sp_mul_spec_lemma RL) in Eu, Ev by (auto; lia). injection Eu as <-. injection Ev as <-.
   rewrite (dense_adjoint RL) by lia. rewrite Hr, Hc. rewrite dtmulv_sym; auto.
   intros i j Hi Hj. apply Hsym; lia.
+Qed.
+
+(* on a symmetric storage transpose_multiply computes the same vector as multiply *)
+Theorem sp_tmul_eq_mul_sym (s : sparse A) n : wfS s -> sp_rows s = n -> sp_cols s = n -> sp_symmetric s ->
+  forall v, length v = n -> sp_tmul s v = sp_mul s v.
+Proof.
+  intros Hwf Hr Hc Hsym v Hv.
+  rewrite (sp_mul_spec_lemma RL), (sp_tmul_spec_lemma RL) by (auto; lia). f_equal.
+  rewrite Hr, Hc. apply dtmulv_sym. intros i j Hi Hj. apply Hsym; lia.
 Qed.
 End SymSparse.
 
@@ -116,4 +125,38 @@ Proof.
   - apply (sp_mul_Ok_inv AR_RingLaws) in Eax; auto.
   - intros xs Hxs Exs. apply Huniq; auto. rewrite <- Exs.
     apply (sp_mul_spec_lemma AR_RingLaws); auto. exact (eq_trans Hxs Hsq).
+Qed.
+
+(* ---- BiCG on symmetric storage is CG: the convergence theorems transfer ---- *)
+Theorem bicg_terminates_spd_R n (mulA mulAT : list R -> res (list R)) itol (b x0 : list R) max tol :
+  @LinOp AR n mulA -> @SymOp AR n mulA -> (forall v, length v = n -> mulAT v = mulA v) -> PosDef n mulA ->
+  itol = 1%nat \/ itol = 2%nat -> length b = n -> length x0 = n -> 0 <= tol -> (n <= max)%nat ->
+  exists k x g, @solve_bicg SAR mulA mulAT n n itol b x0 max tol = Ok (IOk k, x, g) /\ (k <= n)%nat.
+Proof.
+  intros LO SYM TS PD Hit Hb Hx Htol Hmax.
+  destruct (cg_terminates_spd_R n mulA LO SYM b x0 max tol PD Hb Hx Htol Hmax) as (k & x & g & H & Hk).
+  destruct (@bicg_is_cg_on_symmetric SAR AR_FieldLaws n mulA mulAT LO TS itol b x0 max tol _ x g Hit H) as (g' & H').
+  exists k, x, g'. auto.
+Qed.
+
+Theorem bicg_terminates_spd_sparse_R (s : sparse AR) itol (b x0 : list R) max tol :
+  wfS s -> sp_rows s = sp_cols s -> sp_symmetric s -> sp_posdef s -> itol = 1%nat \/ itol = 2%nat ->
+  length b = sp_rows s -> length x0 = sp_rows s -> 0 <= tol -> (sp_rows s <= max)%nat ->
+  exists k x g, @run_sparse SAR (BiCG itol) s b x0 max tol = Ok (IOk k, x, g) /\ (k <= sp_rows s)%nat /\
+    @norm2 SAR (@zipw AR Rminus b (@sp_apply AR s x)) <= tol * @nz SAR (@norm2 SAR b).
+Proof.
+  intros Hwf Hsq Hsym Hpd Hit Hb Hx Htol Hmax.
+  pose proof (sp_mul_LinOp AR_RingLaws s (sp_rows s) Hwf eq_refl (eq_sym Hsq)) as LO.
+  pose proof (sp_mul_SymOp AR_RingLaws s (sp_rows s) Hwf eq_refl (eq_sym Hsq) Hsym) as SYM.
+  pose proof (sp_posdef_PosDef s (sp_rows s) Hwf eq_refl (eq_sym Hsq) Hpd) as PD.
+  pose proof (sp_tmul_eq_mul_sym AR_RingLaws s (sp_rows s) Hwf eq_refl (eq_sym Hsq) Hsym) as TS.
+  destruct (bicg_terminates_spd_R (sp_rows s) (@sp_mul AR s) (@sp_tmul AR s) itol b x0 max tol LO SYM TS PD Hit Hb Hx Htol Hmax)
+    as (k & x & g & H & Hk).
+  exists k, x, g.
+  assert (H' : @run_sparse SAR (BiCG itol) s b x0 max tol = Ok (IOk k, x, g)).
+  { assert (E : forall c, c = sp_rows s ->
+              @solve_bicg SAR (@sp_mul AR s) (@sp_tmul AR s) (sp_rows s) c itol b x0 max tol = Ok (IOk k, x, g)) by (intros c ->; exact H).
+    exact (E _ (eq_sym Hsq)). }
+  split; auto. split; auto.
+  exact (run_sparse_ok_solved_R (BiCG itol) s b x0 max tol k x g Hwf H').
 Qed.
